@@ -31,9 +31,10 @@ VARIABLES tr, l,
           drained,  \* the final drain event was consumed
           stops,    \* sequence of [c, step]: StopReadCollection calls
           addparts, \* sequence of [c, p, registered]: AddPartition calls with the shards registered at that instant
+          fl,       \* downstream channel q -> highest checkpoint (seek) time among the collections started so far with a shard on q
           kfused
 
-vars == <<tr, l, outs, reads, srcmsg, cnt, pend, evs, drained, stops, addparts, kfused>>
+vars == <<tr, l, outs, reads, srcmsg, cnt, pend, evs, drained, stops, addparts, fl, kfused>>
 
 Params == Traces[tr].params
 Floor == IF "floor" \in DOMAIN Params THEN Params.floor ELSE 0
@@ -42,7 +43,7 @@ TaskID == "task1"
 
 TInit == /\ tr \in 1..Len(Traces) /\ l = 1
          /\ outs = <<>> /\ reads = <<>> /\ srcmsg = <<>> /\ cnt = 0 /\ pend = <<>> /\ evs = <<>>
-         /\ drained = FALSE /\ stops = <<>> /\ addparts = <<>> /\ kfused = {}
+         /\ drained = FALSE /\ stops = <<>> /\ addparts = <<>> /\ fl = <<>> /\ kfused = {}
 
 IsTick(m) == m.k = "tick"
 NonTick(p) == SelectSeq(p.msgs, LAMBDA m : ~IsTick(m))
@@ -125,11 +126,24 @@ PackConsistent(p) ==
                               /\ p.b <= d[i].ts /\ d[i].ts <= p.e /\ d[i].ts <= Tick(p)
       /\ \A i \in 1..Len(p.spos) : p.spos[i].ts = p.b
       /\ \A i \in 1..Len(p.epos) : p.epos[i].ts = p.e
-ChannelOK(sq) ==
+\* Resume: a collection started from a checkpoint with time t on a shard paired with q means that q had carried a
+\* closing tick >= t before the pause / restart; everything emitted on q afterwards has to lie above it.
+\* strict: all collections of the trace count (what the statement says).  Known finding C03_resume_start_order: the
+\* channel clock only knows the checkpoints of the collections started so far; with the finding enabled only the
+\* collections started before the pack was READ count.
+Max2(a, b) == IF a >= b THEN a ELSE b
+FlAt(f, q) == IF q \in DOMAIN f THEN f[q] ELSE 0
+PackFloor(p, strict) ==
+    Max2(Floor, IF strict THEN FlAt(fl, p.q)
+                ELSE IF LabelOK(p) /\ WasRead(StreamOfPack(p), PackId(p))
+                       THEN FlAt(ReadsOf(StreamOfPack(p))[PackNo(StreamOfPack(p), PackId(p))].fl, p.q)
+                       ELSE 0)
+ChannelOK(sq, strict) ==
     /\ \A i \in 1..Len(sq) : EndsWithTick(sq[i]) /\ PackConsistent(sq[i])
     /\ \A i \in 1..Len(sq)-1 : Tick(sq[i]) <= Tick(sq[i+1])
     /\ \A i, j \in 1..Len(sq) : i < j => \A m \in 1..Len(NonTick(sq[j])) : NonTick(sq[j])[m].ts > Tick(sq[i])
-    /\ \A i \in 1..Len(sq) : \A m \in 1..Len(NonTick(sq[i])) : NonTick(sq[i])[m].ts > Floor
+    /\ \A i \in 1..Len(sq) : /\ \A m \in 1..Len(NonTick(sq[i])) : NonTick(sq[i])[m].ts > PackFloor(sq[i], strict)
+                              /\ Tick(sq[i]) >= PackFloor(sq[i], strict)
 \* messages of one source shard keep their relative time order (earlier stays earlier, equal stays equal)
 OrderKept(sq) ==
     \A i, j \in 1..Len(sq) : (sq[i].coll = sq[j].coll /\ sq[i].pch = sq[j].pch) =>
@@ -142,7 +156,8 @@ ByCompute(sq) == SortSeq(sq, LAMBDA a, b : a.cs < b.cs)
 \* known finding C03_enqueue_race: packs stamped under the channel lock in one order but enqueued in another;
 \* with the finding enabled the channel contract is demanded of the compute order instead of the arrival order
 C03Seq(sq) == IF KFOn("C03_enqueue_race") THEN ByCompute(sq) ELSE sq
-C03Inv == \A q \in QsOf(outs) : ChannelOK(C03Seq(OnQ(outs, q))) /\ OrderKept(OnQ(outs, q))
+C03InvS(strict) == \A q \in QsOf(outs) : ChannelOK(C03Seq(OnQ(outs, q)), strict) /\ OrderKept(OnQ(outs, q))
+C03Inv == C03InvS(~KFOn("C03_resume_start_order"))
 
 (* ------------------------------ C04 -------------------------------------- *)
 CollByName(n) == Catalog[CHOOSE i \in 1..Len(Catalog) : Catalog[i].name = n]
@@ -219,7 +234,7 @@ TStep ==
     /\ LET e == Traces[tr].events[l] IN
        /\ e.op # "machinery"
        /\ IF e.op = "feed" /\ e.res = "ok"
-            THEN /\ reads' = Append(reads, [s |-> e.s, pack |-> e.pack])
+            THEN /\ reads' = Append(reads, [s |-> e.s, pack |-> e.pack, fl |-> fl])
                  /\ srcmsg' = [k \in DOMAIN srcmsg \cup MidsOf(e) |-> IF k \in DOMAIN srcmsg THEN srcmsg[k] ELSE MsgOf(e, k)]
             ELSE UNCHANGED <<reads, srcmsg>>
        /\ IF e.op = "step" /\ e.from = "prelock" /\ e.to = "presend"
@@ -244,11 +259,22 @@ TStep ==
        /\ stops' = IF e.op = "stop" THEN Append(stops, [c |-> e.c, step |-> l]) ELSE stops
        /\ addparts' = IF e.op = "addpart" /\ ~e.err THEN Append(addparts, [c |-> e.c, p |-> e.p, registered |-> e.registered]) ELSE addparts
        /\ drained' = (drained \/ e.op = "drain")
+       /\ IF e.op = "start" /\ "seeks" \in DOMAIN e /\ Len(e.seeks) > 0 /\ KnownName(e.c)
+            THEN LET c == CollByName(e.c)
+                     idx == {i \in 1..Len(e.seeks) : e.seeks[i].ch \in DOMAIN c.bypch}
+                     qOf(i) == c.pairq[c.bypch[e.seeks[i].ch]]
+                     qs == {qOf(i) : i \in idx}
+                     mx(q) == LET S == {FlAt(fl, q)} \cup {e.seeks[i].ts : i \in {j \in idx : qOf(j) = q}} IN
+                              CHOOSE x \in S : \A y \in S : y <= x IN
+                 fl' = [q \in DOMAIN fl \cup qs |-> IF q \in qs THEN mx(q) ELSE fl[q]]
+            ELSE fl' = fl
     /\ l' = l + 1 /\ tr' = tr
     /\ ((l = Len(Traces[tr].events) \/ Diag) => Inv')
     /\ kfused' = kfused
          \cup (IF KFOn("C03_enqueue_race") /\ P("C03") /\ \E q \in QsOf(outs') : ByCompute(OnQ(outs', q)) # OnQ(outs', q)
                  THEN {"C03_enqueue_race"} ELSE {})
+         \cup (IF KFOn("C03_resume_start_order") /\ P("C03") /\ l = Len(Traces[tr].events) /\ ~C03InvS(TRUE)'
+                 THEN {"C03_resume_start_order"} ELSE {})
          \cup (IF KFOn("C04_partition_barrier_size") /\ P("C04") /\ l = Len(Traces[tr].events)
                   /\ (\E i \in 1..Len(evs) : IsDropP(evs[i]) /\ ~AfterAllShards(evs[i], TRUE))'
                  THEN {"C04_partition_barrier_size"} ELSE {})
